@@ -536,7 +536,7 @@ func c08r5(r *R) {
 
 func checkGlobalBytes(r *R, name, want string) {
 	p := r.pkg("proxyproto")
-	g, _ := p.Members[name].(*ssa.Global)
+	g, _ := refGlobal(p, name), true
 	if g == nil {
 		r.missing("proxyproto." + name)
 	}
